@@ -355,6 +355,14 @@ def history_specs(draw, q):
 
 
 # ------------------------------------------------------------------------------------------------
+def crash(o, e, prefix=""):
+    """An unhandled exception: this property's subject if it is raised inside orificing.py."""
+    if e.where.startswith("orificing.py"):
+        o.fail("cannot_evaluate:%s@%s" % (e.exc_type, e.where), prefix + str(e)[:300])
+    else:
+        o.inconclusive = "crash_outside_orificing:%s@%s" % (e.exc_type, e.where)
+
+
 def run_pipeline(spec):
     """The real chain on a generated core: Orificing(inp) -> group_by_power -> run_parametric (12 single-assembly sweeps per
     type) -> distribute -> run_dassh_orifice -> (regroup) -> distribute."""
@@ -390,7 +398,7 @@ def run_pipeline(spec):
             o.inconclusive = "grouping_error"
             return o
         except drive.Crashed as e:
-            o.fail("cannot_evaluate:%s@%s" % (e.exc_type, e.where), str(e)[:300])
+            crash(o, e)
             return o
         gd = np.asarray(orf.group_data, float)
         if not check_partition(o, gd, sid, n, "_initial"):
@@ -402,8 +410,13 @@ def run_pipeline(spec):
             o.inconclusive = "parametric_error"
             return o
         except drive.Crashed as e:
-            o.fail("cannot_evaluate:%s@%s" % (e.exc_type, e.where), str(e)[:300])
+            crash(o, e)
             return o
+        # distribute() looks assemblies up in the response data by row: row k must be the assembly of row k of the group
+        # table, with its own type (otherwise limits and responses of another type are applied to it)
+        ai = np.asarray(orf._parametric["asm_ids"])
+        o.check(ai.shape == (len(sid), 2) and [int(x) for x in ai[:, 0]] == sid and [int(x) for x in ai[:, 1]] == tp,
+                "response_lookup_not_aligned_with_group_table", "asm_ids %s, expected ids %s types %s" % (ai.tolist()[:8], sid[:8], tp[:8]))
         t_in = float(orf.t_in)
         dT_target = float(orf.orifice_input["bulk_coolant_temp"]) - t_in
         cool = orf.coolant
@@ -431,7 +444,7 @@ def run_pipeline(spec):
                     o.classes["stopped"] = "regroup_error"
                     break
                 except drive.Crashed as e:
-                    o.fail("cannot_evaluate:%s@%s" % (e.exc_type, e.where), "iteration %d: %s" % (it + 1, str(e)[:300]))
+                    crash(o, e, "iteration %d: " % (it + 1))
                     break
                 if not check_partition(o, np.asarray(orf.group_data, float), sid, n, "_after_regroup"):
                     break
@@ -444,7 +457,7 @@ def run_pipeline(spec):
                     o.fail("flow_not_conserved_reported", "iteration %d: %s" % (it + 1, msg[:200]))
                 break
             except drive.Crashed as e:
-                o.fail("cannot_evaluate:%s@%s" % (e.exc_type, e.where), "iteration %d: %s" % (it + 1, str(e)[:300]))
+                crash(o, e, "iteration %d: " % (it + 1))
                 break
             m = np.asarray(m, float)
             if not check_distribution(o, orf, m, n, sid, tp, m_expected, dp_limit, "_iter%d" % min(it + 1, 2)):
@@ -459,7 +472,7 @@ def run_pipeline(spec):
                 o.classes["stopped"] = "sweep_error"
                 break
             except drive.Crashed as e:
-                o.fail("cannot_evaluate:%s@%s" % (e.exc_type, e.where), "iteration %d: %s" % (it + 1, str(e)[:300]))
+                crash(o, e, "iteration %d: " % (it + 1))
                 break
             # the sweep was run with the distributed flows
             first = res_prev[res_prev[:, 0] == res_prev[0, 0]]
